@@ -101,6 +101,39 @@ CLAIMS["C20"] = {
   "note": "Known finding F6: found_object (UnknownMethod vs UnknownObject) is derived from handler-less fallback flags; tolerated only for paths not covered by any registration. "
           "One-byte path elements, <=4 children per node, scripted (not arbitrary) histories.",
 }
+CLAIMS["C02"] = {
+  "text": "Kernel-level part only: for each signature of a stated family and every well-formed body up to N bytes (well-formedness assumed through the independent decoder), the real "
+          "_dbus_marshal_byteswap yields a body that is well-formed in the other byte order, decodes to exactly the same values, is accepted by the real validator, and swaps back to "
+          "the original bytes; memory-safety checks and dbus assertions on.",
+  "note": "Found and fixed F7 (CVE-2022-42012). NOT covered: building messages through the public construction API, DBusTypeWriter, header creation, dbus_message_copy, whole-message "
+          "re-serialisation identity; the leaf write/read harness exists (harness/C02_leaf.c) but the heap-string insert path gave no verdict within 200 s / 15 GB and is not registered.",
+}
+CLAIMS["C10"] = {
+  "text": "Decided part of C10 only: no crash, memory-safety violation, failed dbus assertion or non-termination (within the unwinding bound) in any kernel that handles bytes chosen by "
+          "one client — message framing and body validation, byte-order conversion, name/path/signature/UTF-8 predicates, match-rule matching, one SASL server step — plus the dispatch "
+          "skeleton's containment facts (an unauthenticated or monitoring sender is disconnected, nothing of its message is routed). Composite of the corresponding jobs, re-run.",
+  "note": "Bounded latency for bystanders, fairness, floods, half-sent messages and anything needing a running process and a clock are outside what bounded symbolic execution of kernels "
+          "can address and are NOT claimed. Findings F2, F5, F7, F9 were crashes of this kind and are fixed.",
+}
+CLAIMS["C11"] = {
+  "text": "Two solver lemmas on the real code plus a stated (not machine-checked) induction: L1 — framing validity and lengths are a function of the first 16 bytes and the limit only, "
+          "'complete' is monotone in the available length and flips exactly at header+body (full 32-bit width); L3 — the body validator's verdict on a frame is independent of the "
+          "bytes that follow it in the buffer (self-composition, per signature shape).",
+  "note": "L2 (exact consumption of header+body bytes, sticky corruption in the loader loop) has a skeleton harness (harness/C11_loader.c) that is registered only once it decides in "
+          "budget; a direct multi-chunk run through the heap-string loader is out of reach. The induction over chunks is an argument in DESIGN.md.",
+}
+CLAIMS["C19"] = {
+  "text": "Activation-helper part only: on the real decision chain of bus/activation-helper.c, for every bus name and service-file content within the bound, a program is executed at most "
+          "once and only for a syntactically valid bus name whose service file declares exactly that Name together with Exec and User; an invalid name is refused before any file is consulted.",
+  "note": "The bus side of C19 (at-most-once start, holding and in-order delivery, failure fan-out, timeouts) is not covered. Unique names are accepted leniently (F1).",
+}
 NOT_APPLICABLE = {f"C{n:02d}": PENDING for n in range(1, 21)}
+NOT_APPLICABLE["C12"] = ("not decided with this technique here: header edits go through DBusTypeReader delete/set + replacement blocks on DBusString; three encodings in the design round and a "
+                         "fixed-capacity in-place-string harness for _dbus_header_remove_unknown_fields (harness/C12_strip.c, concrete two-field header) did not finish symbolic execution "
+                         "in 600 s; no partial claim would decide the statement")
+NOT_APPLICABLE["C17"] = ("not built: the pending-call core of dbus-connection.c needs the connection lock/condvar ghost model, DBusHashTable and timeout list models around a 6000-line "
+                         "translation unit; real thread interleavings are outside bounded sequential symbolic execution anyway (DESIGN.md section 5)")
+NOT_APPLICABLE["C15"] = ("receive-path harness (harness/C15_recv_fds.c on the real _dbus_read_socket_with_unix_fds) exists but did not decide within 900 s per job; the fd-count comparison of "
+                         "load_message is in the C11 loader skeleton; the bus's descriptor table across histories needs a running process")
 NOTES = ("All checks are solver-based (CBMC) over the real sources; see DESIGN.md. Exit 0 = all obligations UNSAT inside the stated bounds; "
          "exit 1 = counterexample (VIOLATION line when the native replay reproduces it); exit 2 = check broken on this tree.")
